@@ -120,3 +120,14 @@ def run():
         if a["i"] or a["f"] or a["s"] or a["ints"] or a["floats"] or a["strings"] or a["t"] is not None:
             probs.append((f"body:{tname}:value", f"body attribute {inner!r} is a reference but carries a value"))
     return probs
+
+
+# ---------------------------------------------------------------- an Inputs dataclass with one field of each kind
+from typing import Optional as _Opt, Sequence as _Seq  # noqa: E402
+
+
+@dataclass
+class In3(BaseInputs):
+    A: Var
+    B: _Opt[Var]
+    C: _Seq[Var]
